@@ -21,6 +21,11 @@ claim("C12",
       "Trusted: Lean kernel, 3 standard axioms, oracle hook + differ. Assumed: SHA-256 collision resistance on the compared pre-images; cmd/go's action ID covers source/tags/GOOS/GOARCH/Go version; import paths contain no '|'.",
       "Lean 4 proof (depends-only-on + pre-image injectivity) + oracle/model differential histories", "DESIGN.md 5/C12")
 
+claim("C15",
+      "Lean 4 theorems over a model of go/types (mutual inductive Ty with named/alias/generic/struct/func types), Go's identity relation, type-parameter substitution and garble's modified struct hasher: for ALL struct types, identical (tags ignored, aliases transparent) => same struct salt; instantiation with any type arguments keeps the salt; tags never matter; hence corresponding fields of identical structs get the same obfuscated name under any configuration, whichever package computes it. Tie: per run ~360 generated struct pairs over 4 packages (each struct re-declared elsewhere with <=1 perturbation, generic/alias/anonymous/embedded forms); shapes are serialised from go/types itself; the model's identity relation is checked against types.IdenticalIgnoreTags/Identical, its hash against the real typeutil_hash, field names against the real hashWithStruct, and computeFieldToStruct must resolve every field object.",
+      "Trusted: Lean kernel, 3 standard axioms, oracle hook (type serialiser) + differ; go/types as the reference for Go's type identity. Interfaces are modelled by method count (generated ones are empty). Conversions are compiled end-to-end only by the e2e tiers.",
+      "Lean 4 proof (all struct types) + go/types-validated model + oracle/model differential", "DESIGN.md 5/C15")
+
 claim("C20",
       "Lean 4 theorems, for argument vectors of any length: tables_agree (kernel-evaluated on tables regenerated from main.go and from `go help build/testflag` + cmd/go source on every run), split_eq_goSplit (garble's split = the Go flag package's parse over go's own table whenever go accepts the vector; forms -f, --f, -f=v, -f v; arbitrary values), split_partition and nested_preserves_user_args (user flags and packages reach go unchanged, in order), forward_exact / forward_complete (every `go help build` flag with its value reaches the internal go list, with a stated exception list), reject_iff (reverse/map reject exactly when a non-build flag is present), garble_flag_rejected / rx_only_own (garble's own flags after the command are rejected, and nothing else is). Tie: regenerated tables + 2e4 differential vectors through the real splitFlagsFromArgs, filterForwardBuildFlags, rejectUnknownBuildFlags, flagValue(s), flagSetValue, splitFlagsFromFiles, alterTrimpath, rxGarbleFlag.",
       "Trusted: Lean kernel, 3 standard axioms, extractor, oracle hook. `--` and bare `-` in flag position are outside the domain (stated in the model). The argv of the nested go command is modelled (nestedGoArgs), not executed.",
